@@ -9,7 +9,8 @@
       inst th t         apply an assignment th : N -> ty of ALL inference variables to t
       solves th sb      th satisfies every equation x = sb[x] exactly
       same u v          u and v are identical up to what unify never inspects: ownership flags of
-                        function inputs (compared only when both inputs are linear) and the
+                        function inputs whose type is copyable on at least one side (flags are compared whenever
+                        both input types are non-copyable: linear AND affine ones such as arrays) and the
                         copy/drop flags of bound variables
       sol pr_flags th sb   th satisfies every equation of sb up to `same`
       resolve m sb t    the idempotent closure sb* applied to t (None = fuel m too small)
@@ -168,8 +169,10 @@ Proof.
   - reflexivity.
 Qed.
 
-Example ex_flags :   (* linear inputs must agree on flags; non-linear ones need not *)
+Example ex_flags :   (* non-copyable inputs (linear qubit, affine array) must agree on flags; copyable ones need not *)
   unify 100 (TFun [(TOpaque qubit_def [], 2)] TNone [] []) (TFun [(TOpaque qubit_def [], 0)] TNone [] []) [] = NoUnifier /\
+  unify 100 (TFun [(TOpaque array_def [argT (TNum KInt); argC (CVal 3)], 2)] TNone [] [])
+            (TFun [(TOpaque array_def [argT (TNum KInt); argC (CVal 3)], 0)] TNone [] []) [] = NoUnifier /\
   unify 100 (TFun [(TNum KInt, 2)] TNone [] []) (TFun [(TNum KInt, 0)] TNone [] []) [] = Unifier [] /\
   same (TFun [(TNum KInt, 2)] TNone [] []) (TFun [(TNum KInt, 0)] TNone [] []).
 Proof. vm_compute. auto. Qed.
